@@ -188,6 +188,9 @@ pub enum Op {
     /// script-locked world utxo with its witness; `by_utxo` chooses add_*_script_utxo over add_*_script_input
     InScript { utxo: usize, wit: Wit, by_utxo: bool },
     InReqSigner(KeyId),
+    /// a key-owned UTxO first added by mistake as a Plutus-script input (the entry point does not
+    /// look at the address), then added again correctly as a regular input: the second call replaces the first
+    InScriptThenRegular { utxo: usize, wit: Wit },
     /// add directly on the TransactionBuilder (deprecated pass-through; usable after a selection)
     InDirect(usize),
     // ---- collateral
